@@ -107,6 +107,9 @@ pub fn check(c: &Case) -> Result<Vec<&'static str>, Failure> {
     if line_text.chars().count() > 120 {
         classes.push("long_line");
     }
+    if c.text[ls..c.pos].chars().count() > 65_535 {
+        classes.push("column>65535");
+    }
     if c.text.starts_with(verif_core::inputs::LEADING_ODDITIES) {
         classes.push("odd_first_character");
     }
@@ -141,6 +144,18 @@ pub fn build(bytes: &[u8]) -> Case {
             } else {
                 text.push('\n')
             }
+        }
+    }
+    if src.chance(3) {
+        // a single enormous line: columns beyond 65 535 (16-bit widths, counters, buffers)
+        let n = src.range(65_500, 66_200);
+        let mut line = String::with_capacity(n + 8);
+        for i in 0..n {
+            line.push(if i % 997 == 0 { 'é' } else { 'a' });
+        }
+        text.push_str(&line);
+        if src.chance(128) {
+            text.push('\n');
         }
     }
     if src.chance(24) {
